@@ -248,6 +248,8 @@ pub mod spec {
     pub open spec fn clamp_idx(i: int, n: int) -> int {
         if n <= 0 { 0 } else if i < 0 { 0 } else if i > n - 1 { n - 1 } else { i }
     }
+    /// a count operand clamped into 0..=avail
+    pub open spec fn clamp_count(n: int, avail: int) -> int { if n < 0 { 0 } else if n > avail { avail } else { n } }
     /// YANK: item at position k from the top moves to the top
     pub open spec fn yank_seq<T>(s: Seq<T>, k: int) -> Seq<T> {
         if 0 < k < s.len() { s.remove(s.len() - 1 - k).push(s[s.len() - 1 - k]) } else { s }
